@@ -73,7 +73,28 @@ fn run_loss_chain_case(id: &str, r: &mut Rng, out: &mut String) {
         let q = 1 + r.below((left as u64 / 2).max(1)) as i64;
         left -= q;
         let px = if r.chance(65) { Decimal::new(r.range(2000, 4900), 2) } else { Decimal::new(r.range(5100, 8000), 2) };
-        rows.push(ledger::mk_tx(day, &affs[0], ledger::sell(Decimal::new(q, 0), px, None)));
+        // some loss sales carry a superficial loss forced by the user ('!'), with its SfLA row
+        let forced = px < Decimal::new(45, 0) && r.chance(30);
+        let spec = if forced {
+            let v = Decimal::new(r.range(1, 400), 2);
+            Some((v, acb::portfolio::SFLInput {
+                superficial_loss: acb::util::decimal::LessEqualZeroDecimal::try_from(-v).unwrap(),
+                force: true,
+            }))
+        } else {
+            None
+        };
+        rows.push(ledger::mk_tx(day, &affs[0], ledger::sell(Decimal::new(q, 0), px, spec.as_ref().map(|x| x.1.clone()))));
+        if let Some((v, _)) = spec {
+            rows.push(ledger::mk_tx(
+                day,
+                &affs[0],
+                TxActionSpecifics::Sfla(acb::portfolio::SflaTxSpecifics {
+                    shares_affected: acb::util::decimal::PosDecimal::try_from(Decimal::ONE).unwrap(),
+                    amount_per_share: acb::util::decimal::PosDecimal::try_from(v).unwrap(),
+                }),
+            ));
+        }
         sale_days.push(day);
     }
     for (i, t) in rows.iter_mut().enumerate() {
@@ -92,13 +113,16 @@ pub fn run_case(id: &str, r: &mut Rng, out: &mut String) {
         return run_loss_chain_case(id, r, out);
     }
     let mut names = vec!["Default".to_string()];
-    // histories without manual SFL entries and without errors are the domain of C10
+    // error-free histories are the domain of C10; most cases drop the (mostly inconsistent) random
+    // manual superficial-loss entries so that more histories are error-free
     let (mut rows, _init) = app::gen_security(r, "S0", &mut names);
-    rows.retain(|t| match &t.action_specifics {
-        TxActionSpecifics::Sfla(_) => false,
-        TxActionSpecifics::Sell(s) => s.specified_superficial_loss.is_none(),
-        _ => true,
-    });
+    if r.chance(75) {
+        rows.retain(|t| match &t.action_specifics {
+            TxActionSpecifics::Sfla(_) => false,
+            TxActionSpecifics::Sell(s) => s.specified_superficial_loss.is_none(),
+            _ => true,
+        });
+    }
     if rows.is_empty() {
         return;
     }
